@@ -140,6 +140,24 @@ Theorem C14_recover_job_spec : forall par fuel subs r stop,
 Proof. exact recover_job_spec. Qed.
 Print Assumptions C14_recover_job_spec.
 
+(* --- tier limits given by NAME (adjustNetworkTopologySpec): a sub-group's valid tier name is
+   translated to its tier whatever the job-level spec is (absent, a number, a valid or an
+   unknown name); the variant that skips the sub-jobs after a job-level failure (seeded mutant
+   C14-r5-2) loses the limit --- *)
+Theorem C14_adjust_sub_valid_name : forall table job subs role n,
+  In (role, Some (TName n)) subs -> existsb (Z.eqb n) table = true ->
+  In (role, Some n) (snd (adjust false table job subs)).
+Proof. exact adjust_sub_valid_name. Qed.
+Print Assumptions C14_adjust_sub_valid_name.
+
+Theorem C14_adjust_skip_refuted :
+  let table := [1; 2] in
+  let subs := [(1, Some (TName 1))] in
+  snd (adjust true table (Some (TName 0)) subs) = [(1, None)] /\
+  snd (adjust false table (Some (TName 0)) subs) = [(1, Some 1)].
+Proof. exact adjust_skip_refuted. Qed.
+Print Assumptions C14_adjust_skip_refuted.
+
 (* --- the view, UNBOUNDED (any number of HyperNodes, tiers, members): for every set of objects
    with exact-match members that arrives leaf-first (each object after all its HyperNode
    members, which exist and are not yet claimed: a consistent forest built bottom-up), the
